@@ -1642,6 +1642,11 @@ pub fn run(a: &Args) {
                 crate::c03m7::run_steps(&mut out, &mut pend, &ctx, n, label, &steps).await;
             }
         }
+        for n in [4usize] {
+            for (label, steps) in crate::c03m7::after_deadline(&ctx, n) {
+                crate::c03m7::run_steps(&mut out, &mut pend, &ctx, n, &label, &steps).await;
+            }
+        }
         crate::api::report(&mut out);
         crate::routes::run(&mut out).await;
         let carries = detect_carries(&ctx).await;
